@@ -452,6 +452,129 @@ func c07EndToEnd(res *vResult) {
 			}
 		}
 		res.distinct(fmt.Sprintf("e2e/assocs=%d/teids=%d", nas, len(all)/4))
+		// ---- phase 2 (one association, sequential): modifications that touch CHOOSE PDRs and are rejected as a whole,
+		// or accepted; then: every TEID of a live PDR is still allocated in the generator, a released one is not, and
+		// after the cursor went around nothing that is in use is chosen again.
+		func() {
+			p, err := vNewPeer(vEnv.addr(30), a.opts.N4)
+			if err != nil {
+				return
+			}
+			defer p.close()
+			if c01Request(p, p.assocSetup(1), 1) == nil {
+				return
+			}
+			type sess struct {
+				up    uint64
+				teids map[uint16]uint32 // live CHOOSE PDRs
+				gone  []uint32          // TEIDs released by accepted modifications
+			}
+			var ss []*sess
+			seq := uint32(100)
+			for i := 0; i < 3+rng.Intn(3); i++ {
+				seq++
+				est := c10Session(seq, uint64(0x700+i), 52000+k*16+i)
+				est.PDRs[0].Choose = true
+				p2 := est.PDRs[0]
+				p2.ID, p2.Prec, p2.FAR, p2.SDF = 3, 50, 1, "permit out udp from 10.7.0.0/16 53 to assigned"
+				est.PDRs = append([]vPDRSpec{est.PDRs[0], p2}, est.PDRs[1:]...)
+				m := c01Request(p, p.establish(est), seq)
+				er, ok := m.(*message.SessionEstablishmentResponse)
+				if !ok || vDecodeReply(m).Cause != ie.CauseRequestAccepted {
+					continue
+				}
+				x := &sess{up: c01UPSEID(m), teids: map[uint16]uint32{}}
+				for _, c := range er.CreatedPDR {
+					id, _ := c.PDRID()
+					if ft, err := c.FTEID(); err == nil {
+						x.teids[id] = ft.TEID
+					}
+				}
+				ss = append(ss, x)
+			}
+			for _, x := range ss {
+				seq++
+				var mod vModSpec
+				kind := rng.Intn(4)
+				switch kind {
+				case 0: // remove the first CHOOSE PDR, but name an unknown FAR too: rejected as a whole
+					mod = vModSpec{Seq: seq, SEID: x.up, RmPDR: []uint16{1}, RmFAR: []uint32{99}}
+				case 1: // move PDR 1 to an F-TEID of the control plane's choice, rejected because of an unknown QER removal
+					np := c10Session(0, 0, 1).PDRs[0]
+					np.TEID = 0x7A000000 + uint32(k)
+					mod = vModSpec{Seq: seq, SEID: x.up, UpPDR: []vPDRSpec{np}, RmQER: []uint32{77}}
+				case 2: // remove the first CHOOSE PDR (accepted): its TEID is released, the second one's is not
+					mod = vModSpec{Seq: seq, SEID: x.up, RmPDR: []uint16{1}}
+				default: // nothing
+				}
+				if kind == 3 {
+					continue
+				}
+				m := c01Request(p, p.modify(mod), seq)
+				acc := m != nil && vDecodeReply(m).Cause == ie.CauseRequestAccepted
+				res.event("modifications_touching_chosen_teids", 1)
+				if acc && kind == 2 {
+					x.gone = append(x.gone, x.teids[1])
+					delete(x.teids, 1)
+				} else if acc && kind == 1 {
+					x.gone = append(x.gone, x.teids[1])
+					delete(x.teids, 1)
+				}
+			}
+			g := a.iface.upf.fteidGenerator
+			for _, x := range ss {
+				for id, t := range x.teids {
+					if !g.IsAllocated(t) {
+						res.violate("C07.E4", "live-teid-free-in-generator", fmt.Sprintf("session %#x PDR %d still matches on the UP-chosen TEID %#x, but the generator holds it as free: it will be chosen again for another session", x.up, id, t), nil)
+					}
+				}
+				for _, t := range x.gone {
+					if g.IsAllocated(t) {
+						res.violate("C07.E4", "released-teid-still-allocated", fmt.Sprintf("TEID %#x of a removed / moved PDR of session %#x is still allocated in the generator", t, x.up), nil)
+					}
+				}
+			}
+			// the cursor goes around: the next choices start below the live TEIDs
+			minT := uint32(0xFFFFFFFF)
+			for _, x := range ss {
+				for _, t := range x.teids {
+					if t < minT {
+						minT = t
+					}
+				}
+			}
+			if minT != 0xFFFFFFFF && minT > 1 {
+				g.lock.Lock()
+				g.offset = minT - 2
+				g.lock.Unlock()
+				live := map[uint32]uint64{}
+				for _, x := range ss {
+					for _, t := range x.teids {
+						live[t] = x.up
+					}
+				}
+				nmore := 2*len(live) + 4
+				for i := 0; i < nmore; i++ {
+					seq++
+					est := c10Session(seq, uint64(0x800+i), 53000+k*16+i)
+					est.PDRs[0].Choose = true
+					m := c01Request(p, p.establish(est), seq)
+					er, ok := m.(*message.SessionEstablishmentResponse)
+					if !ok || vDecodeReply(m).Cause != ie.CauseRequestAccepted {
+						continue
+					}
+					for _, c := range er.CreatedPDR {
+						if ft, err := c.FTEID(); err == nil {
+							if o, dup := live[ft.TEID]; dup {
+								res.violate("C07.E2", "chosen-teid-duplicate-after-wrap", fmt.Sprintf("TEID %#x chosen for session %#x is still used by a live PDR of session %#x", ft.TEID, c01UPSEID(m), o), nil)
+							}
+							live[ft.TEID] = c01UPSEID(m)
+						}
+					}
+					res.event("choices_after_cursor_went_around", 1)
+				}
+			}
+		}()
 		a.stop(vStopWatchdog)
 	}
 }
